@@ -58,10 +58,11 @@ theorem penLik_congr (d : Data) (u r w w' : Mat) (h : ∀ a < d.K, ∀ b < d.K, 
 
 theorem wUpdate_congr (d : Data) (u w w' r : Mat) (h : ∀ a < d.K, ∀ b < d.K, w a b = w' a b)
     (a b : ℕ) (ha : a < d.K) (hb : b < d.K) : wUpdate d u w r a b = wUpdate d u w' r a b := by
-  rw [wUpdate_eq, wUpdate_eq, h a ha b hb]
-  congr 2
-  apply Finset.sum_congr rfl; intro e _
-  rw [poisson_congr d.N d.K u w w' h]
+  rw [wUpdate_def, wUpdate_def, h a ha b hb]
+  have hs : ∀ e ∈ range d.E, d.A e * chat u (nodesOf d.N (d.edge e)) a b / poisson d.N d.K u w (d.edge e)
+      = d.A e * chat u (nodesOf d.N (d.edge e)) a b / poisson d.N d.K u w' (d.edge e) := by
+    intro e _; rw [poisson_congr d.N d.K u w w' h]
+  rw [Finset.sum_congr rfl hs]
 
 /-- the affinity array after `n` passes of the loop when the memberships `us` are supplied -/
 def wAfter (d : Data) (us w0 : List (List Rat)) (ru rw : Mat) (n : ℕ) : List (List Rat) :=
@@ -77,8 +78,7 @@ theorem wAfter_succ (d : Data) (us w0 : List (List Rat)) (ru rw : Mat) (n : ℕ)
 theorem loop_inv (d : Data) (us w0 : List (List Rat)) (ru rw : Mat)
     (hu : ∀ i a, 0 ≤ matOf us i a) (hw0 : ∀ a b, 0 ≤ matOf w0 a b) (hA : ∀ e < d.E, 0 < d.A e)
     (hr : ∀ a b, 0 ≤ rw a b)
-    (hlam : ∀ e < d.E, 0 < poisson d.N d.K (matOf us) (matOf w0) (d.edge e))
-    (hden : ∀ a < d.K, ∀ b < d.K, 0 < wDen d.N (matOf us) a b + rw a b) (n : ℕ) :
+    (hlam : ∀ e < d.E, 0 < poisson d.N d.K (matOf us) (matOf w0) (d.edge e)) (n : ℕ) :
     (∀ a b, 0 ≤ matOf (wAfter d us w0 ru rw n) a b) ∧
     (∀ e < d.E, 0 < poisson d.N d.K (matOf us) (matOf (wAfter d us w0 ru rw n)) (d.edge e)) := by
   induction n with
@@ -87,23 +87,22 @@ theorem loop_inv (d : Data) (us w0 : List (List Rat)) (ru rw : Mat)
     obtain ⟨h1, h2⟩ := ih
     rw [wAfter_succ]
     constructor
-    · exact matOf_toRows_nonneg _ _ _ (wUpdate_nonneg d _ _ rw hu h1 (fun e he => (hA e he).le) hr)
+    · exact matOf_toRows_nonneg _ _ _ (wUpdate_nonneg d _ _ rw hu h1 (fun e he => (hA e he).le))
     · intro e he
       rw [poisson_congr d.N d.K (matOf us) _ (wUpdate d (matOf us) (matOf (wAfter d us w0 ru rw n)) rw)
         (fun a ha b hb => matOf_toRows_in _ _ _ a b ha hb)]
-      exact poisson_pos_after d _ _ rw hu h1 hA hr h2 hden e he
+      exact poisson_pos_after d _ _ rw hu h1 hA hr h2 e he
 
 theorem loop_ascent (d : Data) (us w0 : List (List Rat)) (ru rw : Mat)
     (hu : ∀ i a, 0 ≤ matOf us i a) (hw0 : ∀ a b, 0 ≤ matOf w0 a b) (hA : ∀ e < d.E, 0 < d.A e)
     (hr : ∀ a b, 0 ≤ rw a b)
-    (hlam : ∀ e < d.E, 0 < poisson d.N d.K (matOf us) (matOf w0) (d.edge e))
-    (hden : ∀ a < d.K, ∀ b < d.K, 0 < wDen d.N (matOf us) a b + rw a b) (n : ℕ) :
+    (hlam : ∀ e < d.E, 0 < poisson d.N d.K (matOf us) (matOf w0) (d.edge e)) (n : ℕ) :
     penLik d (matOf us) rw (matOf (wAfter d us w0 ru rw n))
       ≤ penLik d (matOf us) rw (matOf (wAfter d us w0 ru rw (n + 1))) := by
-  obtain ⟨h1, h2⟩ := loop_inv d us w0 ru rw hu hw0 hA hr hlam hden n
+  obtain ⟨h1, h2⟩ := loop_inv d us w0 ru rw hu hw0 hA hr hlam n
   rw [wAfter_succ, penLik_congr d (matOf us) rw _
     (wUpdate d (matOf us) (matOf (wAfter d us w0 ru rw n)) rw)
     (fun a ha b hb => matOf_toRows_in _ _ _ a b ha hb)]
-  exact ascent_step d _ _ rw hu h1 hA h2 hden
+  exact ascent_step d _ _ rw hu h1 hA hr h2
 
 end C15
